@@ -1,54 +1,58 @@
 ------------------------------ MODULE MC_Export ------------------------------
-(* Exports spec-defined spaces as ndjson (run by setup; see ../check). *)
+(* Exports spec-defined spaces as ndjson (run by setup; see ../check).
+   Every space is an operator WITH a (dummy) parameter: TLC pre-evaluates zero-arity constant definitions at start-up,
+   which would build every space -- including the 111^N vocabulary sequences -- on every export. *)
 EXTENDS Gram, Text, ExpandFix, Escape, Options, Spell, Contract, Json, IOUtils, SequencesExt
 
 What == IOEnv.VH_WHAT
 OutF == IOEnv.VH_OUT
 NN   == atoi(IOEnv.VH_N)
 
-PatSet == IF IOEnv.VH_PROF = "ctxfill" THEN CtxFillPats ELSE IF IOEnv.VH_PROF = "condctx" THEN CondCtxFillPats ELSE IF IOEnv.VH_PROF = "wildshapes" THEN WildShapePats ELSE PatsOfSize(NN, Prof(IOEnv.VH_PROF))
-PatRecs == LET S == SetToSeq(PatSet)
+PatSetOf(u) == IF IOEnv.VH_PROF = "ctxfill" THEN CtxFillPats ELSE IF IOEnv.VH_PROF = "condctx" THEN CondCtxFillPats ELSE IF IOEnv.VH_PROF = "wildshapes" THEN WildShapePats ELSE PatsOfSize(NN, Prof(IOEnv.VH_PROF))
+PatRecs(u) == LET S == SetToSeq(PatSetOf(0))
            IN [q \in 1..Len(S) |-> [id |-> q, ast |-> S[q].ast, ng |-> S[q].ng]]
 \* single-site injections of every pattern of the base space
-InjRecs == LET B == SetToSeq(PatSet)
-               S == SetToSeq(UNION { { [ast |-> x, base |-> b.ast, ng |-> b.ng] : x \in {y \in Injections(b.ast) : InjectOK(y)} } : b \in PatSet })
+InjRecs(u) == LET B == SetToSeq(PatSetOf(0))
+               S == SetToSeq(UNION { { [ast |-> x, base |-> b.ast, ng |-> b.ng] : x \in {y \in Injections(b.ast) : InjectOK(y)} } : b \in PatSetOf(0) })
            IN [q \in 1..Len(S) |-> [id |-> q, ast |-> S[q].ast, base |-> S[q].base, ng |-> S[q].ng]]
 Sig == CASE IOEnv.VH_SIG = "sig6" -> SIG6
          [] IOEnv.VH_SIG = "case4" -> <<"a", "A", "b", "B">>
          [] IOEnv.VH_SIG = "wide" -> <<"a", "E", "T", "Q", "N">>
          [] IOEnv.VH_SIG = "ab" -> <<"a", "b">>
-TextRecs == LET S == TextsUpTo(Sig, NN) IN [q \in 1..Len(S) |-> [t |-> S[q]]]
+TextRecs(u) == LET S == TextsUpTo(Sig, NN) IN [q \in 1..Len(S) |-> [t |-> S[q]]]
 
-TplRecs == LET S == TextsUpTo(TplAlphabet, NN) IN [q \in 1..Len(S) |-> [id |-> q, tpl |-> S[q]]]
-FixRecs == [q \in 1..Len(Fixtures) |-> [pat |-> Fixtures[q].pat, text |-> Fixtures[q].text]]
+TplRecs(u) == LET S == TextsUpTo(TplAlphabet, NN) IN [q \in 1..Len(S) |-> [id |-> q, tpl |-> S[q]]]
+FixRecs(u) == [q \in 1..Len(Fixtures) |-> [pat |-> Fixtures[q].pat, text |-> Fixtures[q].text]]
 
-EscRecs == LET S == TextsUpTo(EscAlphabet, NN)
+EscRecs(u) == LET S == TextsUpTo(EscAlphabet, NN)
            IN [q \in 1..Len(S) |-> [id |-> q, s |-> S[q], hay |-> Hay(S[q]), hosts |-> [h \in 1..NHosts |-> HostStr(h)]]]
 
-SizeRecs == << [pieces |-> SizePieces, hosts |-> SizeHosts, limits |-> SizeLimits] >>
+SizeRecs(u) == << [pieces |-> SizePieces, hosts |-> SizeHosts, limits |-> SizeLimits] >>
 
 \* C19: for every base pattern every style that changes its spelling (style 1 = plain is always included as the reference)
-SpellRecs == LET S == SetToSeq(UNION { { [base |-> b.ast, ng |-> b.ng, style |-> j, toks |-> Spell(b.ast, Styles[j]), sametree |-> TRUE]
-                                         : j \in {q \in 1..Len(Styles) : Applicable(b.ast, Styles[q])} } : b \in PatSet })
+SpellRecs(u) == LET S == SetToSeq(UNION { { [base |-> b.ast, ng |-> b.ng, style |-> j, toks |-> Spell(b.ast, Styles[j]), sametree |-> TRUE]
+                                         : j \in {q \in 1..Len(Styles) : Applicable(b.ast, Styles[q])} } : b \in PatSetOf(0) })
              IN [q \in 1..Len(S) |-> [id |-> q, ast |-> S[q].base, base |-> S[q].base, ng |-> S[q].ng, style |-> S[q].style, toks |-> S[q].toks, sametree |-> S[q].sametree]]
 
-VocabRecs == LET S == TextsUpTo(Vocabulary, NN) IN [q \in 1..Len(S) |-> [id |-> q, toks |-> S[q]]]
-AmpRecs == LET S == {<<f, k>> : f \in 1..Len(AmpFamilies), k \in 1..Len(AmpFactors)}
+VocabRecs(u) == LET S == TextsUpTo(Vocabulary, NN) IN [q \in 1..Len(S) |-> [id |-> q, toks |-> S[q]]]
+AmpRecs(u) == LET S == {<<f, k>> : f \in 1..Len(AmpFamilies), k \in 1..Len(AmpFactors)}
                Q == SetToSeq(S)
            IN [q \in 1..Len(Q) |-> [id |-> q, amp |-> AmpFamilies[Q[q][1]], k |-> AmpFactors[Q[q][2]]]]
+
+Out(r) == LET v == TLCEval(r) IN ndJsonSerialize(OutF, v) /\ PrintT(<<"EXPORTED", Len(v)>>)
 
 VARIABLE done
 Init == done = FALSE
 Next == /\ ~done /\ done' = TRUE
-        /\ CASE What = "pats"  -> /\ ndJsonSerialize(OutF, PatRecs) /\ PrintT(<<"EXPORTED", Len(PatRecs)>>)
-             [] What = "inject" -> /\ ndJsonSerialize(OutF, InjRecs) /\ PrintT(<<"EXPORTED", Len(InjRecs)>>)
-             [] What = "templates" -> /\ ndJsonSerialize(OutF, TplRecs) /\ PrintT(<<"EXPORTED", Len(TplRecs)>>)
-             [] What = "escapes" -> /\ ndJsonSerialize(OutF, EscRecs) /\ PrintT(<<"EXPORTED", Len(EscRecs)>>)
-             [] What = "sizefix" -> /\ ndJsonSerialize(OutF, SizeRecs) /\ PrintT(<<"EXPORTED", Len(SizeRecs)>>)
-             [] What = "spell" -> /\ ndJsonSerialize(OutF, SpellRecs) /\ PrintT(<<"EXPORTED", Len(SpellRecs)>>)
-             [] What = "vocab" -> /\ ndJsonSerialize(OutF, VocabRecs) /\ PrintT(<<"EXPORTED", Len(VocabRecs)>>)
-             [] What = "amp" -> /\ ndJsonSerialize(OutF, AmpRecs) /\ PrintT(<<"EXPORTED", Len(AmpRecs)>>)
-             [] What = "fixtures" -> /\ ndJsonSerialize(OutF, FixRecs) /\ PrintT(<<"EXPORTED", Len(FixRecs)>>)
-             [] What = "texts" -> /\ ndJsonSerialize(OutF, TextRecs) /\ PrintT(<<"EXPORTED", Len(TextRecs)>>)
+        /\ CASE What = "pats"  -> Out(PatRecs(0))
+             [] What = "inject" -> Out(InjRecs(0))
+             [] What = "templates" -> Out(TplRecs(0))
+             [] What = "escapes" -> Out(EscRecs(0))
+             [] What = "sizefix" -> Out(SizeRecs(0))
+             [] What = "spell" -> Out(SpellRecs(0))
+             [] What = "vocab" -> Out(VocabRecs(0))
+             [] What = "amp" -> Out(AmpRecs(0))
+             [] What = "fixtures" -> Out(FixRecs(0))
+             [] What = "texts" -> Out(TextRecs(0))
 Spec == Init /\ [][Next]_done
 =============================================================================
